@@ -6,5 +6,6 @@ func init() {
 			"metamorphic oracle: both programs are run by anko itself; a defect that affects the variable form and the chained form identically is invisible here (it belongs to C05/C06/C10/C01)",
 			"error messages are not compared (only error presence), except for the message of a thrown scalar",
 			"functions are compared by type only; channels by content, capacity and closed state; pointers by pointee content",
+			"held sub-check: the baseline of the templates whose operand is the container (destructuring, for-in, spread into a fixed-arity function, `x, ok = c[k]`) stores into a twin container instead of the one read; struct and array values are not generated (anko treats them as references) and pointer items are never iterated",
 		)})
 }
